@@ -31,6 +31,14 @@ CLAIMED = {
             "qubits preserved on average over the reset's own branch) + differential correspondence with both branches forced",
             "Proof over exact amplitudes for every n, target and (entangled) state; tied to the source by differential runs.",
             "Trusted: as C02. The pinned code post-selected (genuine defect, repaired by fix: fff04b3).", "DESIGN.md §4 C04"),
+    "C20": ("Lean 4 theorems about a model of the updater's decision logic (numeric triple order, parse of [v]A.B.C for all "
+            "A,B,C, install iff strictly newer, unparsable never acts, exact-name checksum line, notice window by induction over "
+            "arbitrary invocation sequences) + differential correspondence with the real helpers compiled in-process",
+            "Proof for every version string / checksums file / invocation sequence on the model; tied to update_manager.cpp by "
+            "running the real parseSemVer/compareSemVer/decideUpdate/parseChecksum/maybePrintNotice/checkForUpdatesIfDue on the same inputs.",
+            "Trusted: Lean kernel (core-only proofs: propext, Quot.sound, Classical.choice via omega/simp), harness+orchestrator. Network fetch "
+            "result and wall clock are inputs; sub-second timestamp truncation and the download/extract/install path are not modelled.",
+            "DESIGN.md §4 C20"),
 }
 PENDING_REASON = "check not built yet in this revision of /verif (planned: Lean model + correspondence, see DESIGN.md §4)"
 
